@@ -186,6 +186,12 @@ Definition sd_obj_ok (sets : list (Z * Z)) (obj : Z) : bool :=
        | None => false
        end.
 (** touching a dimension through an attribute call gives it a coordinate variable, which counts as a data set *)
+(** does an attribute call on [obj] have to create the coordinate variable of a dimension? *)
+Definition sd_needs_coordvar (d : sdst) (k obj : Z) : bool :=
+  (1000 <=? obj) && match find (fun p => fst p =? attr_key k obj 999) (d_files d) with Some _ => false | None => true end.
+(** number of attributes of an object (kept under name 998) *)
+Definition attr_count_of (d : sdst) (k obj : Z) : Z :=
+  match find (fun p => fst p =? attr_key k obj 998) (d_files d) with Some (_, [(c, _)]) => c | _ => 0 end.
 Definition sd_touch_dim (d : sdst) (k obj : Z) (sets : list (Z * Z)) : list (Z * list (Z * Z)) :=
   if (1000 <=? obj) && match find (fun p => fst p =? attr_key k obj 999) (d_files d) with Some _ => false | None => true end
   then (attr_key k obj 999, []) :: (k, sets ++ [(-1, 1)]) :: filter (fun p => negb (fst p =? k)) (d_files d)
@@ -242,6 +248,7 @@ Inductive op :=
 | OSeekAt (tag ref app origin offset pos0 : Z) | OChunkFill (tag ref k : Z)
 | OSdAttr (k obj a nt count : Z) | OSdAttrInfo (k obj a : Z)
 | OGrAttr2 (nt c1 c2 : Z) | OVgAttr2 (v nt c1 c2 : Z) | OVsAttr2 (x nt c1 c2 : Z)
+| OSdFill (k n : Z) | OSdAttrFill (k obj n : Z) | OLoneVs (lref : Z) | OLoneVg (lref : Z) | OHlHole (tag ref blen : Z)
 | OOther.
 
 Definition state := (hst * vst * sdst)%type.
@@ -520,6 +527,20 @@ Definition step_v (h : hst) (v : vst) (o : op) : hst * vst * res :=
                        else (h, v, RUnspec)
       | None => (h, v, RUnspec) end
   | OGrAttr2 nt c1 c2 => (mkH false 0 (h_ndds h) (h_free h) (-1) (h_elems h) (h_bulk h), v, s_attr2 true nt c1 c2)
+  | OLoneVs r | OLoneVg r =>
+      (** a Vdata / Vgroup that gets ref [r] (the highest ref of the file is pushed to r-1 first) and belongs to no
+          Vgroup: every enumeration must list it -- also when r is MAX_REF, the highest ref the format has *)
+      if negb (h_known h) || (h_maxref h <? 0) || (r - 1 <=? h_maxref h) || (MAX_REF <? r) then (h, v, RUnspec)
+      else (mkH false 0 (h_ndds h) (h_free h) (-1) (h_elems h) (h_bulk h), v, ROk [Some r; Some 1; Some 1])
+  | OHlHole tag ref blen =>
+      (** a linked-block element with a hole; the file is then filled to within less than one block of 2^31-1; a write
+          into the hole is refused, and the hole still reads as zeros, the written blocks as written *)
+      match find_elem h tag ref with
+      | Some _ => (h, v, RUnspec)
+      | None => if negb (h_known h) || (blen <? 16) || (FAR <? blen) || (FAR <? h_eof h) || in_bulk h tag ref then (h, v, RUnspec)
+                else (mkH false 0 (h_ndds h) (h_free h) (-1) (set_elem h (mkE tag ref (-2) 0 false)) (h_bulk h), v,
+                      ROk [Some 0; Some 8; Some 1; Some 1])
+      end
   | OVsAttach slot idx w =>
       match nthz (vss v) idx with
       | Some s => if s_stored s
@@ -555,7 +576,7 @@ Definition step_d (d : sdst) (o : op) : sdst * res :=
       match index_of (d_slots d) k 0, file_get d k with
       | Some _, Some sets =>
           if (nlen <=? 0) || (rank <? 0) then (d, RUnspec)
-          else if (rank <=? H4_MAX_VAR_DIMS) && (nlen <=? H4_MAX_NC_NAME)
+          else if (rank <=? H4_MAX_VAR_DIMS) && (nlen <=? H4_MAX_NC_NAME) && (Z.of_nat (length sets) <? H4_MAX_NC_VARS)
           then (mkD (d_sys d) (d_size d) (d_maxopen d) (d_slots d) (file_set d k (sets ++ [(nlen, rank)])), ROk [])
           else (d, RFail [])
       | _, _ => (d, RUnspec) end
@@ -563,22 +584,51 @@ Definition step_d (d : sdst) (o : op) : sdst * res :=
       match index_of (d_slots d) k 0, file_get d k with
       | Some _, Some sets =>
           if negb (sd_obj_ok sets obj) || (ntsize nt <=? 0) || (a <? 0) || (990 <? a) then (d, RUnspec)
-          else if s_attr_ok nt count
-          then let fl := sd_touch_dim d k obj sets in
-               (mkD (d_sys d) (d_size d) (d_maxopen d) (d_slots d)
-                    ((attr_key k obj a, [(nt, count)]) :: filter (fun p => negb (fst p =? attr_key k obj a)) fl), ROk [])
-          else (d, RFail [])                     (* refused before the object is even looked up: nothing changes *)
+          else if negb (s_attr_ok nt count) then (d, RFail [])   (* refused before the object is even looked up *)
+          else if sd_needs_coordvar d k obj && (H4_MAX_NC_VARS <=? Z.of_nat (length sets))
+          then (d, RFail [])                     (* the file holds H4_MAX_NC_VARS variables: no coordinate variable can be added *)
+          else
+            let isnew := match file_get d (attr_key k obj a) with Some _ => false | None => true end in
+            let cnt := attr_count_of d k obj in
+            if isnew && (H4_MAX_NC_ATTRS <=? cnt)
+            then (if 1000 <=? obj then (mkD (d_sys d) (d_size d) (d_maxopen d) (d_slots d) (sd_touch_dim d k obj sets), RUnspec)
+                  else (d, RFail []))
+            else
+              let fl := sd_touch_dim d k obj sets in
+              let fl1 := (attr_key k obj a, [(nt, count)]) :: filter (fun p => negb (fst p =? attr_key k obj a)) fl in
+              let fl2 := if isnew then (attr_key k obj 998, [(cnt + 1, 0)]) :: filter (fun p => negb (fst p =? attr_key k obj 998)) fl1
+                         else fl1 in
+              (mkD (d_sys d) (d_size d) (d_maxopen d) (d_slots d) fl2, ROk [])
       | _, _ => (d, RUnspec) end
   | OSdAttrInfo k obj a =>
       match index_of (d_slots d) k 0, file_get d k with
       | Some _, Some sets =>
           if negb (sd_obj_ok sets obj) || (a <? 0) || (990 <? a) then (d, RUnspec)
+          else if sd_needs_coordvar d k obj && (H4_MAX_NC_VARS <=? Z.of_nat (length sets)) then (d, RFail [])
           else
             let d' := mkD (d_sys d) (d_size d) (d_maxopen d) (d_slots d) (sd_touch_dim d k obj sets) in
             match file_get d' (attr_key k obj a) with
             | Some [(nt, count)] => (d', ROk [Some nt; Some count])
             | _ => if 1000 <=? obj then (d', RUnspec) else (d, RFail [])
             end
+      | _, _ => (d, RUnspec) end
+  | OSdFill k n =>
+      (** [n] more data sets of rank 1 with a 6-character name: as many as fit below H4_MAX_NC_VARS are created *)
+      match index_of (d_slots d) k 0, file_get d k with
+      | Some _, Some sets =>
+          if (n <? 0) || (20000 <? n) then (d, RUnspec)
+          else let m := Z.max 0 (Z.min n (H4_MAX_NC_VARS - Z.of_nat (length sets))) in
+               (mkD (d_sys d) (d_size d) (d_maxopen d) (d_slots d) (file_set d k (sets ++ repeat (6, 1) (Z.to_nat m))), ok1 m)
+      | _, _ => (d, RUnspec) end
+  | OSdAttrFill k obj n =>
+      (** [n] new one-byte attributes on a data set: as many as fit below H4_MAX_NC_ATTRS are accepted *)
+      match index_of (d_slots d) k 0, file_get d k with
+      | Some _, Some sets =>
+          if negb (sd_obj_ok sets obj) || (obj <? 0) || (1000 <=? obj) || (n <? 0) || (20000 <? n) then (d, RUnspec)
+          else let cnt := attr_count_of d k obj in
+               let m := Z.max 0 (Z.min n (H4_MAX_NC_ATTRS - cnt)) in
+               (mkD (d_sys d) (d_size d) (d_maxopen d) (d_slots d)
+                    ((attr_key k obj 998, [(cnt + m, 0)]) :: filter (fun p => negb (fst p =? attr_key k obj 998)) (d_files d)), ok1 m)
       | _, _ => (d, RUnspec) end
   | OSdInfo k =>
       match index_of (d_slots d) k 0, file_get d k with
@@ -614,7 +664,7 @@ Definition is_h (o : op) : bool :=
 Definition is_d (o : op) : bool :=
   match o with
   | OSdLimit _ | OSdStart _ | OSdOpen _ | OSdEnd _ | OSdCreate _ _ _ | OSdInfo _ | OSdName _ _ | OSdMax _ | OSdGetMax
-  | OSdNOpen | OSdAttr _ _ _ _ _ | OSdAttrInfo _ _ _ => true | _ => false end.
+  | OSdNOpen | OSdAttr _ _ _ _ _ | OSdAttrInfo _ _ _ | OSdFill _ _ | OSdAttrFill _ _ _ => true | _ => false end.
 
 (** reopening the file detaches every Vgroup and Vdata *)
 Definition detach_all (v : vst) : vst :=
